@@ -393,3 +393,56 @@ Proof.
   - exfalso. destruct op; vm_compute in Ep; discriminate.
   - apply (transform_refuses_reuse _ _ p Ep Hq).
 Qed.
+
+(* ------------------------------------------------ tj3Transform crop alignment *)
+(* once jtransform_request_workspace has accepted the request, tj3Transform accepts the crop iff its
+   origin lies on the iMCU grid of the DESTINATION image (8 x the transposed maximal sampling factors,
+   8 x 8 for a single output component); then the region keeps its origin and its requested size *)
+Theorem tj_crop_alignment im n t p :
+  1 <= i_w im -> 1 <= i_h im -> opts_nonneg (tj_xopts n t) ->
+  request_workspace im (tj_xopts n t) = inr p -> t_crop t = true ->
+  let imw := if p_nc p =? 1 then 8 else tw (t_op t) (max_hs (i_comps im)) (max_vs (i_comps im)) * 8 in
+  let imh := if p_nc p =? 1 then 8 else th (t_op t) (max_hs (i_comps im)) (max_vs (i_comps im)) * 8 in
+  p_imw p = imw /\ p_imh p = imh /\
+  (tj_precheck im n t = None <-> (t_x t mod imw = 0 /\ t_y t mod imh = 0)).
+Proof.
+  intros HW HH Hnn Hp Hc. cbv zeta.
+  pose proof (plan_ok im (tj_xopts n t) p HW HH Hnn Hp) as PF.
+  pose proof (pf_imw _ _ _ PF) as Iw. pose proof (pf_imh _ _ _ PF) as Ih.
+  cbn [tj_xopts xo_op] in Iw, Ih.
+  split; [exact Iw|]. split; [exact Ih|].
+  unfold tj_precheck. rewrite Hp, Hc, <- Iw, <- Ih. cbn [andb].
+  destruct (Z.eqb_spec (t_x t mod p_imw p) 0) as [E1|E1];
+    destruct (Z.eqb_spec (t_y t mod p_imh p) 0) as [E2|E2]; cbn [negb orb];
+    split; intros H; try discriminate; try tauto; destruct H; contradiction.
+Qed.
+
+(* an aligned, accepted tj crop without trim: the result has exactly the requested size *)
+Theorem tj_crop_size im n t p :
+  request_workspace im (tj_xopts n t) = inr p -> t_crop t = true -> t_trim t = false ->
+  t_x t mod p_imw p = 0 -> t_y t mod p_imh p = 0 -> 0 < p_imw p -> 0 < p_imh p ->
+  p_xco p * p_imw p = t_x t /\ p_yco p * p_imh p = t_y t /\
+  p_ow p = (if t_w t =? 0 then tw (t_op t) (i_w im) (i_h im) - t_x t else t_w t) /\
+  p_oh p = (if t_h t =? 0 then th (t_op t) (i_w im) (i_h im) - t_y t else t_h t).
+Proof.
+  intros Hp Hc Ht Hx Hy Hiw Hih. revert Hp.
+  unfold request_workspace, tj_xopts. cbn [xo_op xo_perfect xo_trim xo_gray xo_crop xo_slow]. rewrite Hc, Ht. cbv zeta.
+  destruct (t_perfect t && _); [discriminate|].
+  set (imw := if _ =? 1 then 8 else if transposes (t_op t) then _ else _).
+  set (imh := if _ =? 1 then 8 else if transposes (t_op t) then _ else _).
+  unfold crop_axis. cbn [cr_w cr_wset cr_h cr_hset cr_x cr_xset cr_y cr_yset negb].
+  unfold tw, th.
+  repeat match goal with
+         | |- context [if ?c then _ else _] =>
+             lazymatch c with
+             | transposes _ => fail
+             | _ => destruct c eqn:?
+             end
+         end; try discriminate;
+  destruct (t_op t); cbn [transposes] in *; intros H; injection H as <-;
+    cbn [p_imw p_imh p_xco p_yco p_ow p_oh] in *;
+    rewrite ?Hx, ?Hy, ?Z.add_0_r;
+    (repeat split; try lia;
+     try (pose proof (Z.div_mod (t_x t) imw ltac:(lia)); lia);
+     try (pose proof (Z.div_mod (t_y t) imh ltac:(lia)); lia)).
+Qed.
